@@ -219,11 +219,27 @@ func (r *runXML) UnmarshalXML(d *xml.Decoder, start xml.StartElement) error {
 					r.Tabs = append(r.Tabs, v)
 					r.Order = append(r.Order, runChild{'T', len(r.Tabs) - 1})
 				}
-			case "br", "cr":
+			case "br":
 				var v breakXML
 				if err = d.DecodeElement(&v, &t); err == nil {
 					r.Breaks = append(r.Breaks, v)
 					r.Order = append(r.Order, runChild{'b', len(r.Breaks) - 1})
+				}
+			case "cr":
+				// A carriage return is a line break without attributes
+				if err = d.Skip(); err == nil {
+					r.Breaks = append(r.Breaks, breakXML{})
+					r.Order = append(r.Order, runChild{'b', len(r.Breaks) - 1})
+				}
+			case "noBreakHyphen", "softHyphen":
+				// Hyphen characters written as elements
+				if err = d.Skip(); err == nil {
+					hyphen := "\u2011" // non-breaking hyphen
+					if t.Name.Local == "softHyphen" {
+						hyphen = "\u00ad"
+					}
+					r.Text = append(r.Text, textXML{Value: hyphen})
+					r.Order = append(r.Order, runChild{'t', len(r.Text) - 1})
 				}
 			case "drawing":
 				var v drawingXML
